@@ -315,18 +315,47 @@ func ReachesAfter(x, y ssa.Instruction) bool {
 
 // AllPathsAfterHit: starting just after `from`, every path to a normal exit
 // (Return) executes an instruction satisfying hit. Paths ending in panic are
-// exempt. stop (optional) marks instructions where a path is abandoned as
-// satisfied as well.
+// exempt. The walk is path-sensitive for boolean flags: the constant a
+// boolean phi receives along the traversed edge is remembered and decides
+// later branches on that phi (the `done := false; ...; done = true; ...; if done`
+// idiom), so infeasible flag combinations are not explored.
 func AllPathsAfterHit(from ssa.Instruction, hit func(ssa.Instruction) bool) (ok bool, witness ssa.Instruction) {
+	return AllPathsAfterHitE(from, hit, nil)
+}
+
+// AllPathsAfterHitE additionally abandons (as satisfied) paths that take one of okEdges.
+func AllPathsAfterHitE(from ssa.Instruction, hit func(ssa.Instruction) bool, okEdges []Edge) (ok bool, witness ssa.Instruction) {
+	okE := map[Edge]bool{}
+	for _, e := range okEdges {
+		okE[e] = true
+	}
+	type flags map[*ssa.Phi]bool
+	key := func(b *ssa.BasicBlock, i int, f flags) string {
+		var parts []string
+		for p, v := range f {
+			parts = append(parts, fmt.Sprintf("%s=%v", p.Name(), v))
+		}
+		sort.Strings(parts)
+		return fmt.Sprintf("%d/%d/%s", b.Index, i, strings.Join(parts, ","))
+	}
 	type pos struct {
 		b *ssa.BasicBlock
 		i int
+		f flags
 	}
-	seen := map[*ssa.BasicBlock]bool{}
-	work := []pos{{from.Block(), instrIndex(from) + 1}}
+	seen := map[string]bool{}
+	work := []pos{{from.Block(), instrIndex(from) + 1, flags{}}}
 	for len(work) > 0 {
 		p := work[len(work)-1]
 		work = work[:len(work)-1]
+		k := key(p.b, p.i, p.f)
+		if seen[k] {
+			continue
+		}
+		seen[k] = true
+		if len(seen) > 20000 {
+			return false, from // give up conservatively
+		}
 		done := false
 		for k := p.i; k < len(p.b.Instrs); k++ {
 			in := p.b.Instrs[k]
@@ -341,11 +370,67 @@ func AllPathsAfterHit(from ssa.Instruction, hit func(ssa.Instruction) bool) (ok 
 		if done {
 			continue
 		}
-		for _, s := range p.b.Succs {
-			if !seen[s] {
-				seen[s] = true
-				work = append(work, pos{s, 0})
+		// branch decision by known flags
+		only := -1
+		if len(p.b.Instrs) > 0 {
+			if ifi, isIf := p.b.Instrs[len(p.b.Instrs)-1].(*ssa.If); isIf {
+				neg := false
+				c := ifi.Cond
+				for {
+					if u, ok := c.(*ssa.UnOp); ok && u.Op == token.NOT {
+						neg = !neg
+						c = u.X
+						continue
+					}
+					break
+				}
+				if phi, ok := c.(*ssa.Phi); ok {
+					if v, known := p.f[phi]; known {
+						if v != neg {
+							only = 0
+						} else {
+							only = 1
+						}
+					}
+				}
 			}
+		}
+		for si, s := range p.b.Succs {
+			if only >= 0 && si != only {
+				continue
+			}
+			if okE[Edge{p.b, si}] {
+				continue
+			}
+			// update flags for phis of s along edge p.b -> s
+			nf := flags{}
+			for ph, v := range p.f {
+				nf[ph] = v
+			}
+			for _, in := range s.Instrs {
+				ph, isPhi := in.(*ssa.Phi)
+				if !isPhi {
+					break
+				}
+				for pi, pred := range s.Preds {
+					if pred != p.b {
+						continue
+					}
+					e := ph.Edges[pi]
+					if cst, ok := e.(*ssa.Const); ok && cst.Value != nil && cst.Value.Kind() == constant.Bool {
+						nf[ph] = constant.BoolVal(cst.Value)
+					} else if ep, ok := e.(*ssa.Phi); ok {
+						if v, known := p.f[ep]; known {
+							nf[ph] = v
+						} else if ep != ph {
+							delete(nf, ph)
+						}
+					} else {
+						delete(nf, ph)
+					}
+				}
+			}
+			work = append(work, pos{s, 0, nf})
 		}
 	}
 	return true, nil
